@@ -18,8 +18,8 @@
 (***************************************************************************)
 EXTENDS NodeFlow, Track, Dispatch, Bytes, Json, IOUtils, TLC
 
-VARIABLES l, cap, cfg, ts, uq
-ttvars == <<nodes, now, seqOn, ghost, l, cap, cfg, ts, uq>>
+VARIABLES l, cap, cfg, ts, uq, held
+ttvars == <<nodes, now, seqOn, ghost, l, cap, cfg, ts, uq, held>>
 
 Tr == ndJsonDeserialize(IOEnv.TRACE)
 Ev == Tr[l]
@@ -56,7 +56,7 @@ SendAllG(ns, g, out) ==
 
 StOk(t2) == IF Ev.nost = 1 THEN TRUE ELSE Matches(cfg, t2, Ev.st)
 
-TInit == Init /\ l = 1 /\ cap = 64 /\ cfg = [boards |-> <<>>, track |-> <<>>, trains |-> <<>>] /\ ts = State0([boards |-> <<>>, track |-> <<>>, trains |-> <<>>]) /\ uq = QEmpty
+TInit == Init /\ l = 1 /\ cap = 64 /\ cfg = [boards |-> <<>>, track |-> <<>>, trains |-> <<>>] /\ ts = State0([boards |-> <<>>, track |-> <<>>, trains |-> <<>>]) /\ uq = QEmpty /\ held = <<>>
 
 Ghost0 == [sub |-> << >>, wired |-> << >>, last |-> << >>, bad |-> ghost.bad, touched |-> {}, stouched |-> {}]
 
@@ -70,7 +70,7 @@ TStart == /\ IsEv("start")
                           [NewNode EXCEPT !.sseq = IncSeq((CHOOSE x \in RangeS(Ev.seqs) : x.n = a).s)]]
           /\ now' = 0 /\ seqOn' = TRUE /\ cap' = Ev.cap
           /\ ghost' = Ghost0
-          /\ uq' = QEmpty
+          /\ uq' = QEmpty /\ held' = <<>>
 
 (* the message is appended to its queue; when the script drained the queues right after it (dr = 1) they must
    hold exactly what the specification says, oldest first, and are empty afterwards *)
@@ -99,7 +99,7 @@ TUp == /\ IsEv("up")
              /\ QueueStep(r.q, MsgBytes(n, Ev.sq, Ev.ty, Ev.d))
              /\ cap' = IF Ev.ty = MSG_PKT_CAPACITY THEN (IF Ev.d[1] <= 64 THEN 64 ELSE Ev.d[1]) ELSE cap
              /\ StOk(r.ts)
-       /\ UNCHANGED <<now, seqOn, cfg>>
+       /\ UNCHANGED <<now, seqOn, cfg, held>>
 
 THl == /\ IsEv("hl")
        /\ LET r == Cmd(cfg, ts, [fn |-> Ev.fn, s |-> Ev.s, i |-> Ev.i])
@@ -111,38 +111,51 @@ THl == /\ IsEv("hl")
              /\ ghost' = sa.g
              /\ ts' = r.ts
              /\ StOk(r.ts)
-       /\ UNCHANGED <<now, seqOn, cap, cfg, uq>>
+       /\ UNCHANGED <<now, seqOn, cap, cfg, uq, held>>
 
 TTick == /\ IsEv("tick")
          /\ now' = now + Ev.d
          /\ LET d == Decode(Ev.w) IN CanConsume(nodes, d) /\ nodes' = Consumed(nodes, d)
          /\ ghost' = [ghost EXCEPT !.touched = {}, !.stouched = {}]
-         /\ UNCHANGED <<seqOn, cap, cfg, ts, uq>>
+         /\ UNCHANGED <<seqOn, cap, cfg, ts, uq, held>>
 
 TFlush == /\ IsEv("flush")
           /\ LET d == Decode(Ev.w) IN CanConsume(nodes, d) /\ nodes' = Consumed(nodes, d)
           /\ AllOut(nodes')
           /\ StOk(ts)
-          /\ UNCHANGED <<now, seqOn, ghost, cap, cfg, ts, uq>>
+          /\ UNCHANGED <<now, seqOn, ghost, cap, cfg, ts, uq, held>>
 
 TObs == /\ IsEv("obs")
         /\ StOk(ts)
-        /\ UNCHANGED <<nodes, now, seqOn, ghost, cap, cfg, ts, uq>>
+        /\ UNCHANGED <<nodes, now, seqOn, ghost, cap, cfg, ts, uq, held>>
 
 (* drain: everything the three read functions return until NULL *)
 TDrain == /\ IsEv("drain")
           /\ Ev.qm = uq.msg /\ Ev.qe = uq.err /\ Ev.qi = uq.int
           /\ uq' = QEmpty
-          /\ UNCHANGED <<nodes, now, seqOn, ghost, cap, cfg, ts>>
+          /\ UNCHANGED <<nodes, now, seqOn, ghost, cap, cfg, ts, held>>
 
 (* one call of bidib_read_message / bidib_read_error_message: k = "msg" | "err", m = returned bytes, <<>> for NULL *)
 TRead == /\ IsEv("rd")
          /\ LET r == QRead(uq, Ev.k) IN
             /\ Ev.m = (IF r.ok THEN r.res ELSE <<>>)
             /\ uq' = r.uq
-         /\ UNCHANGED <<nodes, now, seqOn, ghost, cap, cfg, ts>>
+         /\ UNCHANGED <<nodes, now, seqOn, ghost, cap, cfg, ts, held>>
 
-TNext == TStart \/ TUp \/ THl \/ TTick \/ TFlush \/ TObs \/ TDrain \/ TRead
+(* C17: results taken now (hold) and looked at again later (held), also after the library stopped *)
+THold == /\ IsEv("hold")
+         /\ BundleMatches(cfg, ts, Ev.b)
+         /\ held' = [k \in DOMAIN held \cup {Ev.k} |-> IF k = Ev.k THEN ts ELSE held[k]]
+         /\ UNCHANGED <<nodes, now, seqOn, ghost, cap, cfg, ts, uq>>
+THeld == /\ IsEv("held")
+         /\ Ev.k \in DOMAIN held
+         /\ BundleMatches(cfg, held[Ev.k], Ev.b)
+         /\ UNCHANGED <<nodes, now, seqOn, ghost, cap, cfg, ts, uq, held>>
+(* bidib_stop: the shutdown traffic is C16's subject; kept results stay comparable *)
+TStop == /\ IsEv("stop")
+         /\ UNCHANGED <<nodes, now, seqOn, ghost, cap, cfg, ts, uq, held>>
+
+TNext == THold \/ THeld \/ TStop \/ TStart \/ TUp \/ THl \/ TTick \/ TFlush \/ TObs \/ TDrain \/ TRead
 TSpec == TInit /\ [][TNext]_ttvars
 
 NotAccepted == l <= Len(Tr)
